@@ -1,7 +1,517 @@
 package c04
 
-import "verif/engine"
+import (
+	"fmt"
+	"io"
+	"regexp"
+	"strconv"
+	"strings"
+	"sync"
+	"sync/atomic"
 
-func enumerateB(tier string, emit func(string)) {}
+	"github.com/ohler55/slip"
 
-func execB(spec string) (res engine.Result) { return }
+	"verif/engine"
+	"verif/lisp"
+)
+
+// ---------------------------------------------------------------- documented range
+
+// docRange is what a documented lambda list allows.
+type docRange struct {
+	req, opt int
+	rest     bool // &rest / &body (or a parameter written name*: "zero or more")
+	keys     []*slip.DocArg
+	restArg  *slip.DocArg
+	pos      []*slip.DocArg // required then optional
+	vague    bool           // the lambda list uses the BNF star (name*): counts are not pinned down, nothing is demanded
+}
+
+type rangeMutation int
+
+const (
+	rmNone rangeMutation = iota
+	rmOptionalIsRequired
+	rmRestIgnored
+	rmMaxOffByOne
+)
+
+func parseDoc(fd *slip.FuncDoc, m rangeMutation) *docRange {
+	r := &docRange{}
+	mode := "req"
+	for _, a := range fd.Args {
+		switch strings.ToLower(a.Name) {
+		case slip.AmpOptional:
+			mode = "opt"
+			continue
+		case slip.AmpRest, slip.AmpBody:
+			mode = "rest"
+			continue
+		case slip.AmpKey:
+			mode = "key"
+			continue
+		case slip.AmpAux:
+			mode = "aux"
+			continue
+		case slip.AmpAllowOtherKeys:
+			continue
+		}
+		if strings.HasSuffix(a.Name, "*") && mode != "key" {
+			r.vague = true
+		}
+		switch mode {
+		case "req":
+			r.req++
+			r.pos = append(r.pos, a)
+		case "opt":
+			if m == rmOptionalIsRequired {
+				r.req++
+			} else {
+				r.opt++
+			}
+			r.pos = append(r.pos, a)
+		case "rest":
+			if m != rmRestIgnored {
+				r.rest = true
+			}
+			if r.restArg == nil {
+				r.restArg = a
+			}
+		case "key":
+			r.keys = append(r.keys, a)
+		}
+	}
+	if m == rmMaxOffByOne {
+		r.opt++
+	}
+	return r
+}
+
+// counts returns the argument counts to try: in-range ones and out-of-range ones.
+//   - below the minimum: 0..req-1
+//   - in range: req..req+opt; with &rest two more; with &key (and no &rest) one more pair per declared key
+//   - above the maximum (only when the list has neither &rest nor &key): max+1, max+2
+func (r *docRange) counts() (in, out []int) {
+	for n := 0; n < r.req; n++ {
+		out = append(out, n)
+	}
+	for n := r.req; n <= r.req+r.opt; n++ {
+		in = append(in, n)
+	}
+	top := r.req + r.opt
+	switch {
+	case r.rest:
+		in = append(in, top+1, top+2)
+	case 0 < len(r.keys):
+		for j := range r.keys {
+			in = append(in, top+2*(j+1))
+		}
+	default:
+		out = append(out, top+1, top+2)
+	}
+	return
+}
+
+func (r *docRange) inRange(n int) bool {
+	if n < r.req {
+		return false
+	}
+	if r.rest || 0 < len(r.keys) {
+		return true
+	}
+	return n <= r.req+r.opt
+}
+
+// ---------------------------------------------------------------- exclusions
+
+// never called at all: even a call that ought to be rejected for its count could do damage or block if it is not
+var skipAlways = map[string]string{
+	"gi:send-signal":       "sends a signal to another process",
+	"gi:clearenv":          "wipes the environment of the worker process",
+	"gi:signal-wait":       "blocks until a signal arrives",
+	"swank:create-server":  "opens a network listener",
+	"swank:restart-server": "opens a network listener",
+	"swank:setup-server":   "opens a network listener",
+	"swank:start-server":   "opens a network listener and writes a port file",
+	"swank:stop-server":    "network listener control",
+	"swank:swank-server":   "opens a network listener and blocks",
+	"swank:swank-stop":     "network listener control",
+	"common-lisp:trace":    "switches global tracing on (output from every later evaluation)",
+	"common-lisp:untrace":  "global tracing state",
+}
+
+// not called with a documented count (blocking / destructive / process-global side effects); still
+// called with counts outside the documented range and inert arguments (0), where the count check must fire
+var skipInRange = map[string]string{
+	"common-lisp:sleep":                    "blocks",
+	"common-lisp:loop":                     "(loop) without an exit never returns",
+	"common-lisp:do":                       "can loop forever with an empty end test",
+	"common-lisp:do*":                      "can loop forever with an empty end test",
+	"common-lisp:y-or-n-p":                 "reads the terminal until it gets an answer",
+	"common-lisp:yes-or-no-p":              "reads the terminal until it gets an answer",
+	"common-lisp:delete-file":              "deletes files",
+	"common-lisp:rename-file":              "renames files",
+	"common-lisp:ensure-directories-exist": "creates directories",
+	"common-lisp:open":                     "creates/truncates files",
+	"common-lisp:with-open-file":           "creates/truncates files",
+	"common-lisp:load":                     "evaluates a file",
+	"common-lisp:require":                  "loads plugins / files",
+	"common-lisp:dribble":                  "redirects the standard streams of the process to a file",
+	"common-lisp:in-package":               "changes *package*",
+	"common-lisp:delete-package":           "removes a package",
+	"gi:snapshot":                          "dumps the whole image (to a file when given a string)",
+	"gi:encrypt-file":                      "writes files",
+	"gi:decrypt-file":                      "writes files",
+	"gi:make-app":                          "writes files and runs the Go tool chain",
+	"gi:run":                               "starts a goroutine",
+	"gi:select":                            "blocks on channels",
+	"gi:channel-pop":                       "blocks on an empty channel",
+	"gi:channel-push":                      "blocks on a full channel",
+	"gi:range":                             "blocks on a channel",
+	"gi:read-push":                         "starts a reader goroutine feeding a channel",
+	"gi:time-ticker":                       "starts a ticker goroutine",
+	"gi:time-after":                        "starts a timer",
+	"gi:setenv":                            "changes the process environment",
+	"gi:unsetenv":                          "changes the process environment",
+	"gi:lock-package":                      "locks a package",
+	"gi:gc":                                "forces a garbage collection (slow)",
+	"bag:load-bag":                         "reads a file",
+	"net:make-socket":                      "creates OS sockets",
+	"net:socket-pair":                      "creates OS sockets",
+	"net:get-host-by-name":                 "DNS lookup (network, may block)",
+	"net:get-host-by-address":              "DNS lookup (network, may block)",
+	"net:graphql-query":                    "HTTP request (network, may block)",
+	"test:benchmark":                       "runs a timed loop",
+}
+
+// ---------------------------------------------------------------- enumeration
+
+func enumerateB(tier string, emit func(string)) {
+	for _, fn := range allFuncs() {
+		id := fn.pkg + ":" + fn.name
+		if _, skip := skipAlways[id]; skip {
+			continue
+		}
+		r := parseDoc(fn.fi.Doc, rmNone)
+		if r.vague {
+			continue
+		}
+		in, out := r.counts()
+		_, noIn := skipInRange[id]
+		all := append([]int(nil), out...)
+		if !noIn {
+			all = append(all, in...)
+		}
+		for _, n := range all {
+			emit("B|" + fn.pkg + "|" + fn.name + "|" + strconv.Itoa(n))
+		}
+	}
+}
+
+// ---------------------------------------------------------------- values by documented type
+
+var caseCounter int64
+
+type valueCtx struct {
+	sym string // unique symbol of this case
+	pkg string // name of the scratch package of this case
+}
+
+// valueFor returns a Lisp expression for an argument of the documented type; quoted tells whether the
+// argument position is evaluated (true: build the value with an expression) or taken literally.
+func valueFor(typ string, evaluated bool, vc *valueCtx) string {
+	t := strings.ToLower(strings.TrimSpace(typ))
+	if i := strings.IndexAny(t, "|"); 0 < i {
+		t = strings.TrimSpace(t[:i])
+	}
+	q := func(ev, lit string) string {
+		if evaluated {
+			return ev
+		}
+		return lit
+	}
+	switch t {
+	case "fixnum", "integer", "number", "real", "rational", "fixnum or nil", "octet", "unsigned-byte", "byte":
+		return "1"
+	case "float":
+		return "1.5"
+	case "string", "pathname", "filepath":
+		return `"/verif/.build/scratch/C04/none/zz"`
+	case "list", "cons", "sequence", "sequemce", "list of strings", "list of packages", "lambda-list", "list placer":
+		return q("(list 1 2 3)", "(1 2 3)")
+	case "association list":
+		return q("(list (cons 1 2))", "((1 . 2))")
+	case "property list":
+		return q("(list 'a 1)", "(a 1)")
+	case "symbol", "function-name", "symbol or list":
+		return q("'"+vc.sym, vc.sym)
+	case "function", "function-designator", "lambda":
+		return q("'list", "list")
+	case "boolean", "t":
+		return "t"
+	case "character":
+		return `#\a`
+	case "keyword":
+		return ":c04k"
+	case "bit-array", "simple-bit-array":
+		return "#*1010"
+	case "array":
+		return q("(make-array (list 2 2))", "#2A((1 2) (3 4))")
+	case "vector", "simple-vector":
+		return q("(vector 1 2 3)", "#(1 2 3)")
+	case "hash-table":
+		return q("(make-hash-table)", "7")
+	case "output-stream", "stream", "string-output-stream":
+		return q("(make-string-output-stream)", "7")
+	case "input-stream":
+		return q(`(make-string-input-stream "1 2 3")`, "7")
+	case "two-way-stream":
+		return q(`(make-two-way-stream (make-string-input-stream "1 2 3") (make-string-output-stream))`, "7")
+	case "echo-stream":
+		return q(`(make-echo-stream (make-string-input-stream "1 2 3") (make-string-output-stream))`, "7")
+	case "broadcast-stream":
+		return q("(make-broadcast-stream)", "7")
+	case "concatenated-stream":
+		return q("(make-concatenated-stream)", "7")
+	case "synonym-stream":
+		return q("(make-synonym-stream '*standard-output*)", "7")
+	case "package", "package designator":
+		return q(`(find-package "`+vc.pkg+`")`, vc.pkg)
+	case "form", "statement", "for":
+		return "(list 1)"
+	case "place", "placer":
+		return "c04place"
+	case "bag":
+		return q(`(bag:make-bag "{a:1}")`, "7")
+	case "time":
+		return q("(gi:make-time 2024 1 2)", "7")
+	case "octets":
+		return q(`(gi:string-to-octets "abc")`, "7")
+	case "instance", "standard-object":
+		return q("(make-instance 'vanilla-flavor)", "7")
+	case "class", "class designator":
+		return q("(find-class 'fixnum)", "fixnum")
+	case "flavor":
+		return q("(find-flavor 'vanilla-flavor)", "vanilla-flavor")
+	case "uuid":
+		return q("(gi:make-uuid)", "7")
+	case "random-state":
+		return q("(make-random-state)", "7")
+	case "mutex":
+		return q("(gi:make-mutex)", "7")
+	case "type specifier":
+		return q("'fixnum", "fixnum")
+	case "type-error", "cell-error", "arithmetic-error", "file-error", "package-error", "stream-error",
+		"simple-condition", "print-not-readable", "unbound-slot", "invalid-method-error":
+		return q("(make-condition '"+t+")", "7")
+	}
+	return "7"
+}
+
+// ---------------------------------------------------------------- execution
+
+var arityRe = regexp.MustCompile(`(?i)too (few|many) arguments|wrong number of arguments`)
+
+var (
+	streamsOnce sync.Once
+)
+
+// quietStreams points slip's process-wide standard streams away from the worker's stdout (which carries
+// the engine's protocol) and stdin. Idempotent configuration, done before the first Part B case.
+func quietStreams() {
+	streamsOnce.Do(func() {
+		slip.StandardOutput = &slip.OutputStream{Writer: io.Discard}
+		slip.ErrorOutput = &slip.OutputStream{Writer: io.Discard}
+		slip.TraceOutput = &slip.OutputStream{Writer: io.Discard}
+	})
+}
+
+func skipper(fi *slip.FuncInfo) func(i int) bool {
+	defer func() { _ = recover() }()
+	if f, ok := fi.Create(nil).(interface{ SkipArgEval(int) bool }); ok {
+		return f.SkipArgEval
+	}
+	return func(int) bool { return false }
+}
+
+func findFunc(pkg, name string) *fnEntry {
+	for _, fn := range allFuncs() {
+		if fn.pkg == pkg && fn.name == name {
+			return fn
+		}
+	}
+	return nil
+}
+
+func execB(spec string) (res engine.Result) {
+	f := strings.Split(spec, "|")
+	if len(f) != 4 {
+		res.Fail("harness:bad-spec", spec)
+		return
+	}
+	n, _ := strconv.Atoi(f[3])
+	fn := findFunc(f[1], f[2])
+	if fn == nil {
+		res.Fail("harness:unknown-function", spec)
+		return
+	}
+	id := fn.pkg + ":" + fn.name
+	if _, skip := skipAlways[id]; skip {
+		res.Outcome = "skipped"
+		return
+	}
+	r := parseDoc(fn.fi.Doc, rmNone)
+	in := r.inRange(n)
+	_, inert := skipInRange[id]
+	if in && inert {
+		res.Outcome = "skipped"
+		return
+	}
+	quietStreams()
+
+	// fresh scratch package as *package*, fresh symbol, fresh scope with private standard streams
+	k := atomic.AddInt64(&caseCounter, 1)
+	vc := &valueCtx{sym: "c04s" + strconv.FormatInt(k, 10), pkg: "c04p" + strconv.FormatInt(k, 10)}
+	scratch := slip.DefPackage(vc.pkg, nil, "C04 scratch package")
+	for _, u := range slip.UserPkg.Uses {
+		scratch.Use(u)
+	}
+	saved := slip.CurrentPackage
+	slip.CurrentPackage = scratch
+	defer func() {
+		slip.CurrentPackage = saved
+		defer func() { _ = recover() }()
+		scratch.Locked = false
+		slip.RemovePackage(scratch)
+	}()
+	scope := slip.NewScope()
+	scope.Let(slip.Symbol("*standard-input*"), slip.NewInputStream(strings.NewReader("1 2 3\n4 5 6\n")))
+	scope.Let(slip.Symbol("*standard-output*"), &slip.OutputStream{Writer: io.Discard})
+	scope.Let(slip.Symbol("*error-output*"), &slip.OutputStream{Writer: io.Discard})
+	scope.Let(slip.Symbol("*trace-output*"), &slip.OutputStream{Writer: io.Discard})
+	scope.Let(slip.Symbol("c04place"), slip.List{slip.Fixnum(1), slip.Fixnum(2), slip.Fixnum(3)})
+
+	// build the call
+	skip := skipper(fn.fi)
+	var args []string
+	for i := 0; i < n; i++ {
+		ev := !skip(i)
+		switch {
+		case inert:
+			args = append(args, "0")
+		case i < len(r.pos):
+			args = append(args, valueFor(r.pos[i].Type, ev, vc))
+		case r.rest && r.restArg != nil:
+			args = append(args, valueFor(r.restArg.Type, ev, vc))
+		case 0 < len(r.keys) && in:
+			j := i - len(r.pos)
+			ka := r.keys[j/2]
+			if j%2 == 0 {
+				args = append(args, ":"+strings.TrimPrefix(ka.Name, ":"))
+			} else {
+				args = append(args, valueFor(ka.Type, ev, vc))
+			}
+		default:
+			args = append(args, "7")
+		}
+	}
+	sep := ":"
+	if !fn.fi.Export {
+		sep = "::"
+	}
+	src := "(" + fn.pkg + sep + fn.name
+	if 0 < len(args) {
+		src += " " + strings.Join(args, " ")
+	}
+	src += ")"
+
+	val, err := lisp.EvalIn(scope, src)
+
+	res.Nontrivial = !in || 0 < r.opt || r.rest || 0 < len(r.keys)
+	var class string
+	switch {
+	case err == nil:
+		class = "value"
+	case arityRe.MatchString(err.Message):
+		class = "arity-error"
+	case err.GoFault:
+		class = "go-fault"
+	default:
+		class = "error:" + err.Class
+	}
+	res.Outcome = class
+	doc := docText(fn.fi.Doc)
+	got := func() string {
+		if err != nil {
+			return "error " + err.String()
+		}
+		return "value " + lisp.Show(val)
+	}
+	mentionsSelf := err != nil && strings.Contains(strings.ToLower(err.Message), strings.ToLower(fn.name))
+	switch {
+	case in:
+		res.Hit("B:in-range")
+		if 0 < len(r.keys) && r.req+r.opt < n {
+			res.Hit("B:in-range-with-keys")
+		}
+		if r.req < n && n <= r.req+r.opt {
+			res.Hit("B:in-range-optional-supplied")
+		}
+		switch {
+		case class == "arity-error" && mentionsSelf:
+			res.Fail(fmt.Sprintf("B fn=%s n=%d kind=documented-count-rejected", id, n),
+				fmt.Sprintf("%s => %s; documented lambda list %s allows %d argument(s)", src, got(), doc, n))
+		case class == "arity-error":
+			res.Hit("B:in-range-arity-error-of-another-function")
+		case class == "go-fault" && indexFaultAtCount(err.Message, n):
+			res.Hit("B:in-range-index-fault-at-count")
+			res.Fail(fmt.Sprintf("B fn=%s n=%d kind=documented-count-faults-on-missing-argument", id, n),
+				fmt.Sprintf("%s => %s; documented lambda list %s allows %d argument(s), the function indexes an argument that is not there", src, got(), doc, n))
+		}
+	case n < r.req:
+		res.Hit("B:below-min")
+		switch class {
+		case "value":
+			res.Fail(fmt.Sprintf("B fn=%s n=%d kind=undocumented-count-accepted:below-min", id, n),
+				fmt.Sprintf("%s => %s; documented lambda list %s requires at least %d argument(s)", src, got(), doc, r.req))
+		case "arity-error":
+			res.Hit("B:out-of-range-arity-error")
+		default:
+			res.Hit("B:out-of-range-inconclusive")
+		}
+	default:
+		res.Hit("B:above-max")
+		switch class {
+		case "value":
+			res.Fail(fmt.Sprintf("B fn=%s n=%d kind=undocumented-count-accepted:above-max", id, n),
+				fmt.Sprintf("%s => %s; documented lambda list %s allows at most %d argument(s)", src, got(), doc, r.req+r.opt))
+		case "arity-error":
+			res.Hit("B:out-of-range-arity-error")
+		default:
+			res.Hit("B:out-of-range-inconclusive")
+		}
+	}
+	return
+}
+
+var indexFaultRe = regexp.MustCompile(`index out of range \[(\d+)\] with length (\d+)`)
+
+// indexFaultAtCount: a Go index fault whose slice length equals the number of arguments passed and
+// whose index is the first missing argument or beyond: the function reads an argument that was not supplied.
+func indexFaultAtCount(msg string, n int) bool {
+	m := indexFaultRe.FindStringSubmatch(msg)
+	if m == nil {
+		return false
+	}
+	idx, _ := strconv.Atoi(m[1])
+	l, _ := strconv.Atoi(m[2])
+	return l == n && n <= idx
+}
+
+func docText(fd *slip.FuncDoc) string {
+	var p []string
+	for _, a := range fd.Args {
+		p = append(p, a.Name)
+	}
+	return "(" + strings.Join(p, " ") + ")"
+}
